@@ -336,8 +336,8 @@ pub fn eval(expr: Node) -> Result<Number, Box<dyn error::Error>> {
                 Number::Integer(n) => Ok(Number::Integer(n)),
                 Number::Float(n) => {
                     let f = n.floor();
-                    if (f <= (i64::MAX as f64)) && (f >= (i64::MIN as f64)) {
-                        Ok(Number::Integer(n as i64))
+                    if (f < (i64::MAX as f64)) && (f >= (i64::MIN as f64)) {
+                        Ok(Number::Integer(f as i64))
                     } else {
                         Ok(Number::Float(f))
                     }
@@ -350,8 +350,8 @@ pub fn eval(expr: Node) -> Result<Number, Box<dyn error::Error>> {
                 Number::Integer(n) => Ok(Number::Integer(n)),
                 Number::Float(n) => {
                     let f = n.ceil();
-                    if (f <= (i64::MAX as f64)) && (f >= (i64::MIN as f64)) {
-                        Ok(Number::Integer(n as i64))
+                    if (f < (i64::MAX as f64)) && (f >= (i64::MIN as f64)) {
+                        Ok(Number::Integer(f as i64))
                     } else {
                         Ok(Number::Float(f))
                     }
@@ -364,8 +364,8 @@ pub fn eval(expr: Node) -> Result<Number, Box<dyn error::Error>> {
                 Number::Integer(n) => Ok(Number::Integer(n)),
                 Number::Float(n) => {
                     let f = n.round();
-                    if (f <= (i64::MAX as f64)) && (f >= (i64::MIN as f64)) {
-                        Ok(Number::Integer(n as i64))
+                    if (f < (i64::MAX as f64)) && (f >= (i64::MIN as f64)) {
+                        Ok(Number::Integer(f as i64))
                     } else {
                         Ok(Number::from(f))
                     }
